@@ -18,7 +18,8 @@ INFO = {
     'assumptions': ['criticality = odd type number (as documented in DecodeError); the reference does not demand '
                     'shortest-form numbers', 'struct/bytes/memoryview shims validated by native replay'],
 }
-MANDATORY = {'sym_data': ['accepts-only-wellformed'], 'tmpl': ['accepts-only-wellformed']}
+MANDATORY = {'sym_data': ['accepts-only-wellformed'], 'tmpl': ['accepts-only-wellformed'],
+             'long': ['accepts-only-wellformed', 'fields-content']}
 
 ALLOWED = ('DecodeError', 'IndexError', 'ValueError', 'UnicodeDecodeError', 'error', 'TypeError')
 
@@ -432,13 +433,105 @@ def _rebuild(w, start, end, body):
     return rec(0, len(w))
 
 
-HARNESSES = {'sym_data': h_sym, 'sym_interest': h_sym, 'sym_lp': h_sym, 'sym_cert': h_sym, 'sym_name': h_sym,
+# ---------------------------------------------------------------------------------------------
+# a Data packet with a LONG Content: declared lengths and actual payload length are independent solver variables
+# ---------------------------------------------------------------------------------------------
+def _num_form(eng, v, form):
+    """TLV number v (int or SInt) in the 1/3/5-octet form (the property does not demand shortest forms)"""
+    from symex.core import pack_uint, SInt as _SInt
+    if form == 1:
+        return [v]
+    size = 2 if form == 3 else 4
+    if isinstance(v, _SInt):
+        return [0xFD if form == 3 else 0xFE] + pack_uint(v, size)
+    return [0xFD if form == 3 else 0xFE] + list(int(v).to_bytes(size, 'big'))
+
+
+def h_long(eng, case):
+    """06 <L> Name [MetaInfo] 15 <cl> <payload of n octets> [SignatureInfo SignatureValue]: L (outer), cl (Content) and
+    n (actual payload length, opaque content) are independent; accept only if L is exact and the Content ends inside the
+    packet; then the Content returned is exactly the cl octets announced.  Assumed: cl >= n (a Content that ends INSIDE the
+    opaque payload makes the decoder read payload octets as structure - that is the business of the short-buffer cases)"""
+    from symex import elastic
+    from symex.api import sym
+    enc = _enc()
+    fo, fc = case['forms']
+    payload, n = eng.elastic('content', 0, case['max'])
+    lim = {1: 0xFC, 3: 0xFFFF, 5: 0xFFFFFFFF}
+    L = eng.int('L', 0, lim[fo])
+    cl = eng.int('cl', 0, lim[fc])
+    eng.assume(cl >= n)
+    name = _tlv(7, _tlv(8, b'a') + _tlv(8, b'bc'))
+    meta = _tlv(0x14, _tlv(0x19, b'\x10')) if case.get('meta') else []
+    tail = (_tlv(0x16, _tlv(0x1b, b'\x00')) + _tlv(0x17, bytes(range(1, 9)))) if case.get('sig') else []
+    pre = [6] + _num_form(eng, L, fo) + list(name) + list(meta) + [0x15] + _num_form(eng, cl, fc)
+    if sym():
+        wire = elastic.buffer_from(pre, payload, list(tail))
+    else:
+        wire = memoryview(bytes(pre) + bytes(payload) + bytes(tail))
+    hdr = 1 + fo
+    body = len(pre) - hdr + n + len(tail)
+    cstart = len(pre)
+    # reference verdict (strict reading of the format)
+    outer_ok = (L == body)
+    room = n + len(tail)                      # octets between the start of the Content value and the end of the packet
+    inside = (cl <= room)
+    acc = None
+    try:
+        acc = enc.parse_data(wire)
+    except Exception as e:
+        ok = any(c.__name__ in ALLOWED for c in type(e).__mro__)
+        if not ok:
+            eng.fail('documented-error-class', exc_sig(e), repr(e)[:160])
+            return
+    eng.observe('impl_accepts', acc is not None)
+    if acc is None:
+        eng.reach('rejected')
+        return
+    if not outer_ok:
+        eng.fail('accepts-only-wellformed', 'accepts:outer length does not match the buffer', {'kind': 'data-long'})
+        return
+    if not inside:
+        eng.fail('accepts-only-wellformed', 'accepts:overrun:model', {'kind': 'data-long', 'reason': 'overrun:model'})
+        return
+    # what follows the Content must be well-formed for an acceptance: the rest of the tail from offset cl - n
+    k = as_int(cl - n)
+    rest = list(tail)[k:]
+    try:
+        if rest:
+            ref.decode_model(rest, 0, len(rest), [e for e in ref.DATA if e[0] in ('signature_info', 'signature_value')], False)
+        rest_ok = True
+    except ref.RefReject as r:
+        rest_ok = False
+        why = r.args[0]
+    if not rest_ok:
+        eng.fail('accepts-only-wellformed', 'accepts:' + why, {'kind': 'data-long', 'reason': why, 'content_swallows': k})
+        return
+    eng.check(True, 'accepts-only-wellformed')
+    nm, mi, content, sigp = acc
+    eng.check(env.names_equal(nm, [list(_tlv(8, b'a')), list(_tlv(8, b'bc'))]), 'fields-name')
+    if k == 0:
+        eng.check(content is not None and (content == payload), 'fields-content')
+    else:
+        from symex.core import s_len
+        eng.check(content is not None and s_len(content) == cl, 'fields-content', sig='content-length')
+    eng.observe('n', n)
+    eng.observe('cl', cl)
+    eng.reach('end')
+
+
+HARNESSES = {'long': h_long, 'sym_data': h_sym, 'sym_interest': h_sym, 'sym_lp': h_sym, 'sym_cert': h_sym, 'sym_name': h_sym,
              'tmpl': h_tmpl, 'edit': h_edit}
 
 
 def cases(tier, seed):
     cs = []
     quick = tier == 'quick'
+    # long Content: declared and actual lengths as independent solver variables (elastic buffer)
+    for fo, fc in ((3, 3), (3, 1), (5, 3), (5, 5)) + (() if quick else ((1, 1), (3, 5), (5, 1))):
+        for sig in (False, True):
+            cs.append(('long', {'forms': [fo, fc], 'sig': sig, 'meta': sig, 'max': 70000 if quick else 2 ** 20},
+                       {'weight': 20}))
     maxn = 7 if quick else 10
     for kind in ('data', 'interest', 'lp', 'cert', 'name'):
         top = maxn + (1 if kind == 'name' else 0) + (0 if quick else (1 if kind == 'name' else 0))
